@@ -201,6 +201,7 @@ def build(prog):
         Assignment,
         Bolus,
         Compartment,
+        Infusion,
         CompartmentalSystem,
         CompartmentalSystemBuilder,
         Statements,
@@ -212,7 +213,8 @@ def build(prog):
         if st[0] == "ode":
             k12, k21, ke, kin = st[1]
             cb = CompartmentalSystemBuilder()
-            cen = Compartment.create("CENTRAL", doses=(Bolus.create("AMT"),))
+            # two doses: the symbols of both belong to the system (an infusion with a duration symbol, then the bolus)
+            cen = Compartment.create("CENTRAL", doses=(Infusion.create("AMT", duration="R"), Bolus.create("AMT")))
             per = Compartment.create("PERIPHERAL", input=Expr.symbol(kin))
             cb.add_compartment(cen)
             cb.add_compartment(per)
@@ -249,11 +251,11 @@ def rhs_expr(rhs):
 # ----------------------------------------------------------------------------- reference
 ENVS = [
     {"A": 1.37, "B": -2.11, "C": 0.59, "P": 3.3, "E": -0.7, "X": 2.0, "AMT": 100.0, "t": 1.5,
-     "D": 7.7, "Q": 5.1},
+     "D": 7.7, "Q": 5.1, "R": 2.25},
     {"A": -0.43, "B": 1.91, "C": 2.77, "P": 0.81, "E": 1.3, "X": -1.0, "AMT": 50.0, "t": 0.5,
-     "D": -3.1, "Q": 0.3},
+     "D": -3.1, "Q": 0.3, "R": 1.75},
     {"A": 2.9, "B": 0.23, "C": -1.61, "P": -1.7, "E": 0.37, "X": 0.0, "AMT": 10.0, "t": 2.5,
-     "D": 1.9, "Q": -2.2},
+     "D": 1.9, "Q": -2.2, "R": 0.5},
 ]
 AMTS = ["A_CENTRAL", "A_PERIPHERAL"]
 for _i, _e in enumerate(ENVS):  # amounts read without an ODE system are free inputs
@@ -290,7 +292,7 @@ def rhs_val(rhs, env):
 
 
 def ode_names(st):
-    return list(dict.fromkeys(list(st[1]) + ["AMT"]))
+    return list(dict.fromkeys(list(st[1]) + ["AMT", "R"]))
 
 
 def amount_val(idx, names, env):
@@ -399,7 +401,7 @@ def check_program(prog):
     for d in defs:
         counts[d] = counts.get(d, 0) + 1
     no_redef = all(c == 1 for c in counts.values())
-    LEAF = set(LEAVES)
+    LEAF = set(LEAVES) | {"AMT", "R"}  # dose symbols are inputs of the system too
     last_index = {}
     for i, st in enumerate(prog):
         if st[0] == "ode":
